@@ -594,6 +594,7 @@ def nested_with(outer_decorator: bool, deep: bool, inner_flag: int, inner_code: 
 
 # ------------------------------------------------------------------------------------------------ generators
 GEN_OPTIONS = {}          # extra db_session options of the generator harnesses (set by generator_options)
+GEN_FLUSH = [False]       # segments that do not commit flush() before yielding
 
 
 def generator(n_yields: int, commit_mask: int, raise_at: int, raise_code: int, action: int, action_at: int,
@@ -631,6 +632,7 @@ def _gen(n_yields, commit_mask, raise_at, raise_code, action, action_at, aform, 
             if s == raise_at: throw_code(raise_code, s, raised)
             if s < n_yields:
                 if commit_mask >> s & 1: core.commit()
+                elif GEN_FLUSH[0]: core.flush()          # flushed but not committed: an open transaction, nothing 'modified'
                 resumed = False
                 try:
                     x = yield (tag, s)
@@ -721,12 +723,13 @@ def _gen(n_yields, commit_mask, raise_at, raise_code, action, action_at, aform, 
     return ok(good)
 
 
-def generator_options(opt: int, n_yields: int, commit_mask: int, raise_at: int, action: int, action_at: int) -> bool:
+def generator_options(opt: int, flush: bool, n_yields: int, commit_mask: int, raise_at: int, action: int, action_at: int) -> bool:
     """The generator scenario (see `generator`) for sessions with other options: opt 0 immediate=True, 1 optimistic=False,
-    2 sql_debug=True, 3 strict=True.  A generator may only be suspended with nothing uncommitted whatever the options are
+    2 sql_debug=True, 3 strict=True, 4 no option; flush: a segment that does not commit calls flush() before it yields (an open
+    transaction with nothing pending in memory).  A generator may only be suspended with nothing uncommitted whatever the options are
     (while it is suspended the caller can open its own session on the same connection).
 
-    pre: 0 <= opt <= 3
+    pre: 0 <= opt <= 4
     pre: 0 <= n_yields <= 2
     pre: 0 <= commit_mask < 4
     pre: -1 <= raise_at <= 2
@@ -736,11 +739,12 @@ def generator_options(opt: int, n_yields: int, commit_mask: int, raise_at: int, 
     post: _
     """
     GEN_OPTIONS.clear()
-    GEN_OPTIONS.update({'immediate': True} if opt == 0 else {'optimistic': False} if opt == 1 else {'sql_debug': True} if opt == 2 else {'strict': True})
+    GEN_OPTIONS.update({'immediate': True} if opt == 0 else {'optimistic': False} if opt == 1 else {'sql_debug': True} if opt == 2 else {'strict': True} if opt == 3 else {})
+    GEN_FLUSH[0] = True if flush else False
     try:
         return _gen(n_yields, commit_mask, raise_at, C_EO, action, action_at, False, False)
     finally:
-        GEN_OPTIONS.clear()
+        GEN_OPTIONS.clear(); GEN_FLUSH[0] = False
 
 
 def generator_refusals(retry: int, ddl: bool, serializable: bool) -> bool:
